@@ -204,14 +204,29 @@ impl Scheduler for SimScheduler {
         Some(Schedule::new(0))
     }
 
-    fn next_task(&mut self, runnable: &[&Task], current: Option<TaskId>, _is_yielding: bool) -> Option<TaskId> {
+    fn next_task(&mut self, runnable: &[&Task], current: Option<TaskId>, is_yielding: bool) -> Option<TaskId> {
         if runnable.is_empty() {
             return None;
         }
-        let ids: Vec<u32> = runnable.iter().map(|t| usize::from(t.id()) as u32).collect();
+        let mut ids: Vec<u32> = runnable.iter().map(|t| usize::from(t.id()) as u32).collect();
+        // A task that yields (yield_now, sleep, a park without token, a spin on an atomic) is asking for
+        // somebody else to run: every policy, however unfair otherwise, grants that when anybody else can
+        // run. Without it a wait loop around park() — legitimate, park may wake spuriously — never ends
+        // under "always the lowest id". (The shipped dot_f64 never yields; recorded scripts are unaffected.)
+        if is_yielding && ids.len() > 1 && !matches!(self.spec, SchedSpec::Script { .. }) {
+            if let Some(c) = current {
+                let c = usize::from(c) as u32;
+                ids.retain(|i| *i != c);
+            }
+        }
+        let yielded_to_others = is_yielding && current.is_some() && runnable.len() > 1 && !matches!(self.spec, SchedSpec::Script { .. });
         let min_id = *ids.iter().min().unwrap();
         let max_id = *ids.iter().max().unwrap();
         let choice: u32 = match &self.spec {
+            // ... and who gets the turn is drawn uniformly from the others, whatever the policy: two tasks that
+            // wait for a third by yielding to each other would otherwise starve it under "never the victim" or
+            // "always the highest id" — which no real scheduler does for ever
+            _ if yielded_to_others => ids[self.rng.usize_below(ids.len())],
             SchedSpec::Random { .. } => ids[self.rng.usize_below(ids.len())],
             SchedSpec::Pct { .. } => {
                 for &id in &ids {
@@ -264,8 +279,19 @@ impl Scheduler for SimScheduler {
         }
         self.report.max_runnable = self.report.max_runnable.max(ids.len());
         self.report.max_task_id = self.report.max_task_id.max(max_id);
-        self.report.trace.push(choice);
+        // (an execution that goes on for tens of millions of decisions is on its way to the wall-clock
+        // watchdog; stop growing the record so that it gets there without exhausting memory)
+        if self.report.trace.len() < 20_000_000 {
+            self.report.trace.push(choice);
+        }
         self.step += 1;
+        // An execution that has taken tens of millions of scheduling decisions is not going to finish (a
+        // wait loop that never gets what it waits for); shuttle records every decision, so it would also
+        // eat the machine's memory before the wall-clock watchdog gets to it. Slow it to a crawl instead:
+        // the watchdog then classifies it like any other hang.
+        if self.step > 30_000_000 {
+            std::thread::sleep(std::time::Duration::from_millis(2));
+        }
         Some(TaskId::from(choice as usize))
     }
 
